@@ -31,7 +31,39 @@ DeferredFails(ev) ==
     \cup (IF ev.parse.cls = "ret" /\ ev.comp.cls # "ret" /\ ev.comp.isv = 0 THEN {"comp_raises_" \o ev.comp.cls} ELSE {})
     \cup (IF sm.ok /\ ev.parse.cls = "ret" /\ ev.mass.cls # "ret" THEN {"resolvable_modification_rejected_by_mass"} ELSE {})
 
+(* global isotope labels: a label is [massnumber]Element (or D / T) for an element of the table *)
+IsLabel(t) == \/ t \in {"D", "T"}
+              \/ LET d == SkipWhile(t, 1, Digits) IN d > 1 /\ d <= Len(t) /\ t \in MonoSymbols
+DeferredLabelFails(ev) ==
+    (IF ev.parse.cls # "ret" THEN {"syntactically_valid_string_rejected_" \o ev.parse.cls} ELSE {})
+    \cup (IF ~IsLabel(ev.label) /\ ev.parse.cls = "ret" /\ ev.mass.cls = "ret" THEN {"unresolvable_isotope_label_silently_ignored"} ELSE {})
+    \cup (IF ev.parse.cls = "ret" /\ ev.mass.cls # "ret" /\ ev.mass.isv = 0 THEN {"mass_raises_" \o ev.mass.cls} ELSE {})
+    \cup (IF ev.parse.cls = "ret" /\ ev.comp.cls # "ret" /\ ev.comp.isv = 0 THEN {"comp_raises_" \o ev.comp.cls} ELSE {})
+    \cup (IF IsLabel(ev.label) /\ ev.parse.cls = "ret" /\ ev.mass.cls # "ret" THEN {"valid_isotope_label_rejected"} ELSE {})
+
+(* charge adducts: comma separated terms [+-][count]Symbol[charge count][+-] over the element table (or e) *)
+IsAdductTerm(t) ==
+    LET s == IF At(t, 1) \in {"+", "-"} THEN 2 ELSE 1
+        d == SkipWhile(t, s, Digits)
+        e == SkipWhile(t, d, Uppers \cup Lowers)
+        q == SkipWhile(t, e, Digits) IN
+    /\ e > d /\ (SubSeq(t, d, e - 1) \in MonoSymbols \/ SubSeq(t, d, e - 1) = "e")
+    /\ q = Len(t) /\ At(t, q) \in {"+", "-"}
+RECURSIVE SplitComma(_)
+SplitComma(t) == LET S == { i \in 1..Len(t) : At(t, i) = "," } IN
+                 IF S = {} THEN <<t>> ELSE LET b == CHOOSE i \in S : \A j \in S : i <= j IN
+                 <<SubSeq(t, 1, b - 1)>> \o SplitComma(SubSeq(t, b + 1, Len(t)))
+IsAdducts(t) == t # "" /\ \A k \in 1..Len(SplitComma(t)) : IsAdductTerm(SplitComma(t)[k])
+DeferredAdductFails(ev) ==
+    (IF ev.parse.cls # "ret" /\ ev.parse.isv = 0 THEN {"parser_raises_" \o ev.parse.cls} ELSE {})
+    \cup (IF ~IsAdducts(ev.adduct) /\ ev.parse.cls = "ret" /\ ev.mass.cls = "ret" THEN {"unresolvable_adduct_silently_given_a_mass"} ELSE {})
+    \cup (IF ev.parse.cls = "ret" /\ ev.mass.cls # "ret" /\ ev.mass.isv = 0 THEN {"mass_raises_" \o ev.mass.cls} ELSE {})
+    \cup (IF ev.parse.cls = "ret" /\ ev.comp.cls # "ret" /\ ev.comp.isv = 0 THEN {"comp_raises_" \o ev.comp.cls} ELSE {})
+    \cup (IF IsAdducts(ev.adduct) /\ ev.parse.cls = "ret" /\ ev.mass.cls # "ret" THEN {"valid_adducts_rejected"} ELSE {})
+
 Fails(ev) == CASE ev.k = "bucket" -> BucketFails(ev)
+               [] ev.k = "deferred_label" -> DeferredLabelFails(ev)
+               [] ev.k = "deferred_adduct" -> DeferredAdductFails(ev)
                [] ev.k = "deferred" -> DeferredFails(ev)
                [] OTHER -> {"unknown_event_kind"}
 Dev(ev) == ""
